@@ -47,7 +47,7 @@ def intsOf (s : String) : List Int := (commaSplit s).map int!
 def sortInts (l : List Int) : List Int := (l.toArray.qsort (fun a b => a < b)).toList
 
 /-- floats travel as the decimal value of their bit pattern -/
-def fb (s : String) : Option F64.Dy := F64.ofBits s.toNat!
+def fb (s : String) : Option F64.Dy := s.toNat?.bind F64.ofBits
 def showF (x : F64.Dy) : String := toString (F64.toBits x)
 def f2 (a b : String) (f : F64.Dy → F64.Dy → F64.Dy) : String :=
   match fb a, fb b with
@@ -103,6 +103,128 @@ def yBand (latBits : Nat) (h y : Int) : Option Bool :=
   else
     let d := Float.abs (t - Float.round t)
     some (d <= Float.scaleB 1.0 (h - 1 - 44))
+
+/-! ### lines -/
+def parseRowTable (s : String) : RowTable :=
+  if s.isEmpty then [] else
+  (s.splitOn ";").filterMap fun it =>
+    match it.splitOn ":" with
+    | [b, y] => some (b.toNat!, int! y)
+    | _ => none
+
+/-- model of the line ops: nil / NewPoint errors are decided by the harness wrapper exactly as here -/
+def lineModel (a : List String) (h v : Int) (tbl : String) (sp : Bool) : String :=
+  match a with
+  | [sl, sa, sz, el, ea, ez] =>
+    let mk (lon lat alt : String) : Option (Option GeoPt) :=
+      if lon == "nil" then some none else
+      match fb lon, fb lat, fb alt with
+      | some x, some y, some z => (newPoint x y z).map some
+      | _, _, _ => none
+    match mk sl sa sz, mk el ea ez with
+    | some (some s), some (some e) =>
+      showSet ((lineExt (parseRowTable tbl) s e h v 300).map fun l => l.map fun x => if sp then x.spId else x.id)
+    | some _, some _ => "ERR"        -- a nil point: the library returns an error
+    | _, _ => "ERR"                  -- NewPoint rejected a coordinate (harness-level)
+  | _ => "BADARG"
+
+/-! ### independent checker of a line result (C06) on the implementation's own output, in Lean `Float` with tolerances -/
+def dyToFloat (x : F64.Dy) : Float := Float.ofBits (UInt64.ofNat (F64.toBits x))
+
+/-- parameter interval of `a + t(b-a) ∈ [lo, hi]`, clamped to [0,1] and widened by `tol`; `none` if empty -/
+def slab (a b lo hi tol : Float) : Option (Float × Float) :=
+  if a == b then (if lo - tol <= a && a <= hi + tol then some (0.0, 1.0) else none)
+  else
+    let t0 := (lo - a) / (b - a)
+    let t1 := (hi - a) / (b - a)
+    let (t0, t1) := if t0 <= t1 then (t0, t1) else (t1, t0)
+    let t0 := (if t0 < 0.0 then 0.0 else t0) - 1e-9
+    let t1 := (if t1 > 1.0 then 1.0 else t1) + 1e-9
+    if t0 <= t1 then some (t0, t1) else none
+
+def rowFloat (lat : Float) (h : Int) : Int :=
+  let r := lat * (3.141592653589793 / 180.0)
+  let u := 1.0 - Float.log (Float.tan r + 1.0 / Float.cos r) / 3.141592653589793
+  (Float.floor (Float.scaleB u (h - 1))).toInt64.toInt
+
+/-- does the straight segment s→e (linear in lon, lat, alt) pass through (or touch) voxel `o`?
+(`shift` = 0 or 360: longitude 180 is the same meridian as -180, so a voxel also occupies its copy shifted by 360 degrees) -/
+def segTouchesAt (s e : GeoPt) (o : Ext) (shift : Float) : Bool :=
+  let sl := dyToFloat s.lon; let el := dyToFloat e.lon
+  let sa := dyToFloat s.alt; let ea := dyToFloat e.alt
+  let sy := dyToFloat s.lat; let ey := dyToFloat e.lat
+  let n := Float.scaleB 1.0 o.h
+  let west := Float.ofInt o.x * 360.0 / n - 180.0 + shift
+  let east := Float.ofInt (o.x + 1) * 360.0 / n - 180.0 + shift
+  let res := Float.scaleB 1.0 (25 - o.v)
+  let bot := Float.ofInt o.f * res
+  let top := Float.ofInt (o.f + 1) * res
+  match slab sl el west east (360.0 / n * 1e-6 + 1e-12), slab sa ea bot top (res * 1e-6 + 1e-12) with
+  | some (a0, a1), some (b0, b1) =>
+    let t0 := if a0 > b0 then a0 else b0
+    let t1 := if a1 < b1 then a1 else b1
+    if t0 > t1 then false else
+    let la := sy + t0 * (ey - sy)
+    let lb := sy + t1 * (ey - sy)
+    let (lo, hi) := if la <= lb then (la, lb) else (lb, la)
+    -- rows decrease with latitude; 3e-10 degrees of slack for the latitude truncation of every recursion point
+    let yTop := rowFloat (hi + 3e-10) o.h
+    let yBot := rowFloat (lo - 3e-10) o.h
+    decide (yTop - 1 ≤ o.y ∧ o.y ≤ yBot + 1)
+  | _, _ => false
+
+def segTouches (s e : GeoPt) (o : Ext) : Bool := segTouchesAt s e o 0.0 || segTouchesAt s e o 360.0
+
+def adj26 (a b : Ext) : Bool :=
+  let n : Int := 2 ^ a.h.toNat
+  let dx := (a.x - b.x) % n
+  let dxOk := dx == 0 || dx == 1 || dx == n - 1
+  a.h == b.h && a.v == b.v && dxOk && decide ((a.y - b.y).natAbs ≤ 1) && decide ((a.f - b.f).natAbs ≤ 1)
+
+/-- is `b` reachable from `a` inside `set` by 26-adjacent steps? -/
+partial def reachable (set : List Ext) (front seen : List Ext) (goal : Ext) : Bool :=
+  if front.isEmpty then false
+  else if front.contains goal then true
+  else
+    let next := set.filter fun x => !seen.contains x && front.any fun y => adj26 x y
+    reachable set next (seen ++ next) goal
+
+def lineCheck (a : List String) (h v : Int) (tbl impl : String) : Option (Bool × String) :=
+  match a with
+  | [sl, sa, sz, el, ea, ez] =>
+    match fb sl, fb sa, fb sz, fb el, fb ea, fb ez with
+    | some x1, some y1, some z1, some x2, some y2, some z2 =>
+      (match newPoint x1 y1 z1, newPoint x2 y2 z2 with
+       | some s, some e =>
+         if impl == "ERR" || impl == "PANIC" then none else
+         let ids := commaSplit impl
+         let exts := ids.filterMap fun i => (if (splitSlash i).length == 4 then (sp2ext1 i).bind parseExt else parseExt i)
+         let t := parseRowTable tbl
+         let va := voxStored t h v s
+         let vb := voxStored t h v e
+         if exts.length != ids.length then some (false, "LINE malformed ID in the result")
+         else if (dedup exts).length != exts.length then some (false, "LINE duplicate in the result")
+         else if !(exts.contains va && exts.contains vb) then some (false, "LINE end-point voxel missing")
+         else if va == vb && exts.length != 1 then some (false, "LINE both ends in one voxel but several IDs returned")
+         else if !(reachable exts [va] [va] vb) then
+           -- known finding D12: NewPoint truncates an already truncated latitude again
+           let reS := (setLat s.lat).map fun t => F64.toBits t != F64.toBits s.lat
+           let reE := (setLat e.lat).map fun t => F64.toBits t != F64.toBits e.lat
+           if reS == some true || reE == some true then some (false, "D12DISC disconnected line; an end-point latitude changes when truncated again")
+           else some (false, "LINE not a connected chain from the start voxel to the end voxel")
+         else
+           match exts.find? (fun o => !segTouches s e o) with
+           | some o => some (false, s!"LINE voxel {o.id} is not touched by the segment")
+           | none =>
+             -- the side condition of theorem C06.line_connected, evaluated on this run of the model
+             let lonM := if h ≥ 31 then hiLonMinima else lonMinima
+             let latM := if h ≥ 31 then hiLatMinima else latMinima
+             let altM := if v ≥ 34 then hiAltMinima else altMinima
+             if va != vb && !(thrTight (voxP3 t h v) (belowThr lonM latM altM) 300 ⟨s.lon, s.lat, s.alt⟩ ⟨e.lon, e.lat, e.alt⟩)
+             then some (false, "THRLOOSE a threshold stop left non-touching voxels") else none
+       | _, _ => none)
+    | _, _, _, _, _, _ => none
+  | _ => none
 
 def dispatch (op : String) (a : List String) : Option String :=
   match op, a with
@@ -211,6 +333,8 @@ def dispatch (op : String) (a : List String) : Option String :=
     some (match (commaSplit l).mapM parseQV, fb mx, fb mn with
       | some qs, some x, some n => showSet ((qvToExtH qs (int! h) (int! v) x n).map fun r => r.map Ext.id)
       | _, _, _ => "BADARG")
+  | "line", [sl, sa, sz, el, ea, ez, h, v, tbl] => some (lineModel [sl, sa, sz, el, ea, ez] (int! h) (int! v) tbl false)
+  | "linesp", [sl, sa, sz, el, ea, ez, z, tbl] => some (lineModel [sl, sa, sz, el, ea, ez] (int! z) (int! z) tbl true)
   | "ovE", [a, b] => some (showBool (overlapExt a b))
   | "ovEA", [a, b] => some (showBool (overlapExtArr (commaSplit a) (commaSplit b)))
   | "ovS", [a, b] => some (showBool (overlapSp a b))
@@ -323,6 +447,10 @@ def propCheck (op : String) (a : List String) : Option (Bool × String) :=
 empty IDs) when one of them is malformed.  `D14EARLY` tags the array overlap checks, which stop at the first
 overlapping pair and so may not look at a later malformed element (known finding). -/
 def rejectCheck (op : String) (a : List String) (impl : String) : Option (Bool × String) :=
+  match op, a with
+  | "line", [sl, sa, sz, el, ea, ez, h, v, tbl] => lineCheck [sl, sa, sz, el, ea, ez] (int! h) (int! v) tbl impl
+  | "linesp", [sl, sa, sz, el, ea, ez, z, tbl] => lineCheck [sl, sa, sz, el, ea, ez] (int! z) (int! z) tbl impl
+  | _, _ =>
   let extOk (s : String) : Bool := (parseExt s).isSome
   let spOk (s : String) : Bool := ((sp2ext1 s).bind parseExt).isSome
   let ar5 (s : String) : Bool := (splitSlash s).length == 5
